@@ -61,7 +61,9 @@ vars == <<pc, cfg, zs, es, n, K, wang, qs, tgrp, labels, cr, aut, cents, pre>>
 (*   entry  : catalogue name                                                 *)
 (*   S      : supercell matrix (relative to the unit cell, columns generate) *)
 (*   Z      : raw Born charges, one integer matrix (mixed comps) per atom   *)
-(*   C      : raw dielectric tensor, symmetric integer matrix (contravar.)  *)
+(*   C      : raw dielectric tensor, integer matrix (contravariant comps);  *)
+(*            NOT necessarily symmetric (raw DFPT tensors of a low-symmetry *)
+(*            crystal are not symmetrised by the point-group average)       *)
 (*   dirs   : set of integer directions                                      *)
 (*   lams   : set of non-zero integers (rescalings of the direction)         *)
 (*   box    : half-width of the boxes searched for representatives          *)
@@ -74,7 +76,6 @@ CfgOK(g) ==
   /\ g.entry \in AllNames
   /\ Det(g.S) # 0
   /\ Len(g.Z) = NAtoms(EntryOf(g.entry))
-  /\ g.C = TransposeS(g.C)
   /\ Abs(Det(g.U)) = 1
   /\ \A l \in g.lams : l # 0
   /\ \A d \in g.dirs : d # Zero3
@@ -155,7 +156,7 @@ TypeOK == pc \in {"choose", "ready", "gamma", "comm", "generic"}
 (* symmetrisation delivers tensors that are symmetric under the space group, *)
 (* obey the acoustic sum rule, and is a projection                           *)
 ReqBornInvariant == pc = "ready" => BornInvariant(cr, aut, pre, zs)
-ReqEpsInvariant == pc = "ready" => EpsInvariant(aut, es) /\ es.num = TransposeS(es.num)
+ReqEpsInvariant == pc = "ready" => EpsInvariant(aut, es)
 ReqBornASR == pc = "ready" => BornASR(cr, zs)
 ReqProjection ==
   pc = "ready" =>
@@ -197,6 +198,12 @@ ReqBasisCovariant ==
          K0 == KofN(c0, z0, e0, MatVecS(Ui, n))
      IN  /\ K0.c1 = K.c1 /\ K0.c2 = K.c2
          /\ \A j, jp \in 1..NAtoms(cr) : MatMulS(U, MatMulS(K0.P[j][jp], TransposeS(U))) = K.P[j][jp]
+
+(* n.eps.n sees only the symmetric part of eps: K is unchanged when eps is replaced by (eps + eps^T)/2        *)
+(* (a kernel that reads one triangle of eps and doubles it computes something else when eps_ij # eps_ji)      *)
+ReqEpsSymmetricPartOnly ==
+  pc = "gamma" =>
+     KEqual(cr, KofN(cr, zs, [num |-> MAddS(es.num, TransposeS(es.num)), den |-> 2 * es.den], n), K)
 
 (* zero Born charges: no correction for any direction *)
 ReqZeroBorn ==
